@@ -56,6 +56,17 @@ func (core *JApiCore) drainCurrentScanner() *jerr.JApiError {
 
 // simply decides which function to call based on lexeme type
 func (core *JApiCore) next(lexeme scanner.Lexeme) *jerr.JApiError {
+	if core.currentDirective == nil {
+		switch lexeme.Type() {
+		case scanner.Keyword, scanner.ContextExplicitClosing:
+			// these do not need a directive being collected
+		default:
+			// a parameter, annotation, body or opening parenthesis with no directive
+			// to attach it to, e.g. "(" at the beginning of a file or after ")"
+			return core.japiError(jerr.NoDirectiveForLexeme, lexeme.Begin())
+		}
+	}
+
 	switch lexeme.Type() {
 	case scanner.Keyword:
 		return core.processKeyword(lexeme)
